@@ -165,6 +165,8 @@ impl OrphanBroker {
                 .set(self.preload_unverified_tx.len() as i64)
         }
 
+        #[cfg(ckb_verif)]
+        ckb_util::verif::point("chain::before_send_unverified");
         match self.preload_unverified_tx.send(lonely_block) {
             Ok(_) => {
                 debug!(
